@@ -273,7 +273,7 @@ func c20Parse(args []string) ([]string, error) {
 				var gotB []uniprot.Entry
 				nErrB := 0
 				ok := true
-				to := time.After(time.Duration(deadlineMs) * time.Millisecond)
+				to := time.After(ioDeadline(deadlineMs))
 			loopB:
 				for ceB != nil || crB != nil {
 					select {
@@ -326,7 +326,7 @@ func c20Parse(args []string) ([]string, error) {
 			_ = x
 		}
 	}
-	deadline := time.After(time.Duration(deadlineMs) * time.Millisecond)
+	deadline := time.After(ioDeadline(deadlineMs))
 	var delivered []uniprot.Entry
 	nErr := 0
 	closed := true
@@ -417,6 +417,13 @@ func c20Parse(args []string) ([]string, error) {
 		if !<-secondOK {
 			closed = false // the second dump, opened while the first was unread, did not come through intact
 		}
+	}
+
+	if !closed {
+		// The parser did not close both channels within the deadline (the model says every stream terminates,
+		// for every capacity and consumer): the request ends as `timeout`, judged FAIL, and the process exits —
+		// a parser goroutine that is blocked or spinning (and possibly allocating) must not live on.
+		ioBlocked()
 	}
 
 	// our own tokenisation of the same stream
